@@ -123,7 +123,8 @@ int main(int argc, char **argv) {
             if (inject && kk > 300) inject = 0;      /* give up injecting: finish the operation normally */
             int ok = 1; long n = 0, leak = 0;
             char *name = NULL, *val = NULL;
-            if (k) { name = vh_malloc(strlen(KN[k]) + 1); strcpy(name, KN[k]); }
+            char *name0 = NULL; size_t koff = ((size_t) (((uint32_t) vh_step * 2654435761u) >> 30));        /* keys at every alignment modulo 4 */
+            if (k) { name0 = vh_malloc(strlen(KN[k]) + 1 + koff); name = name0 + koff; strcpy(name, KN[k]); }
             if (v) { val = vh_malloc(strlen(valstr(v)) + 1); strcpy(val, valstr(v)); }
             long lkb = VH_LOCK_BALANCE(), ovb = vh_overlap_copies, bfb = vh_badfree;
             int newmem = (int) (vh_step & 1);
@@ -229,7 +230,7 @@ int main(int argc, char **argv) {
             long nfail = vh_failed;
             vh_call_end();
             alarm(0);
-            if (name) { memset(name, '#', strlen(name)); vh_free(name); }
+            if (name) { memset(name, '#', strlen(name)); vh_free(name0); }
             if (val) { memset(val, '#', strlen(val)); vh_free(val); }
             vh_bprintf(&b, "{\"op\":\"%s\",\"k\":%d,\"v\":%d,\"inj\":%ld,\"nfail\":%ld,\"ok\":%s,\"err\":%d,\"n\":%ld,\"out\":[%s],\"ents\":[",
                        op, k, v, inject ? kk : 0L, nfail, vh_bool(ok), e, n, (ok || !inject) ? ob.p : "");
